@@ -1224,9 +1224,7 @@ func (p *BinaryProtocol) ReadBaseTypeWithDesc(desc *proto.TypeDescriptor, hasMes
 			if messageLengthErr != nil {
 				return nil, messageLengthErr
 			}
-			if length == 0 {
-				return nil, nil
-			}
+			// length 0 is a present, empty message: it reads as an empty map, not as nil
 			messageLength = length
 		}
 
